@@ -21,7 +21,7 @@ from pypika_tortoise.terms import Criterion, Case, SystemTimeValue, Tuple
 PROPERTY = "C17"
 
 NAMES = ["t", "u"]
-SCHEMAS = ["none", "str", "list", "schema", "nested", "other", "db_only", "deep3", "deep3b"]
+SCHEMAS = ["none", "str", "list", "schema", "nested", "other", "db_only", "deep3", "deep3b", "dotted"]
 ALIASES = [None, "x", "t"]  # ("t": the alias spelled like a table name - equal written names, different tables)
 TEMPORAL = ["none", "for", "for2", "portion"]
 QCLS = [None, "pg", "my"]
@@ -44,6 +44,8 @@ def mk_schema(k):
         return "d"
     if k == "deep3":  # ... which are proper prefixes of this one
         return ["d", "s", "x"]
+    if k == "dotted":  # one schema whose name is the dotted spelling of the two-level path
+        return "d.s"
     if k == "deep3b":  # differs from deep3 in the outermost qualifier only
         return ["e", "s", "x"]
 
@@ -309,6 +311,19 @@ def run_others(case, res):
                     pass
         if safe_hash(a) != h0:
             res.violate("C17|%s|hash-changed-by-render" % kind_name(a), "hash changed after rendering", a=da)
+        # ... and after the object was used as a row source of other statements whose other sources go by the same name
+        from pypika_tortoise.queries import QueryBuilder as _QB, _SetOperation as _SO
+        if isinstance(a, (_QB, _SO, Table, AliasedQuery)) and getattr(a, "alias", None):
+            al = a.alias
+            try:
+                for other_src in (Table("zz_same", alias=al), Query.from_(Table("zz_same")).select("v").as_(al)):
+                    Query.from_(other_src).join(a).cross().select("*")
+                    Query.from_(other_src).from_(a).select("*")
+            except Exception:
+                pass
+            if safe_hash(a) != h0 or a.alias != al or (a in {a}) is not True:
+                res.violate("C17|%s|hash-changed-by-use" % kind_name(a), "hash / alias of an aliased row source changed after it was joined into another "
+                            "statement (set and dict entries made before are lost)", a=da, alias_before=al, alias_after=a.alias)
         for db_, b in objs:
             for dc, c in objs:
                 if type(a) is type(b) is type(c) and (a == b) and (b == c) and not (a == c):
@@ -322,6 +337,8 @@ def run_others(case, res):
 TKEYS = {"A": ("a", None, None, "T"), "B": ("b", None, None, "T"), "C": ("c", None, None, "T"), "A2": ("a", "a2", None, "T"),
          "Acopy": ("a", None, None, "T"), "A_s1": ("a", None, "s1", "T"), "A_s2": ("a", None, "s2", "T"),
          "X_as_a": ("x", "a", None, "T"), "AQ_a": ("a", "a", None, "AQ"),
+         # schema names that only differ in how the path is spelled: one dotted name vs a nested path
+         "A_dot": ("a", None, "p.q", "T"), "A_path": ("a", None, ("p", "q"), "T"),
          # no table at all / an un-aliased subquery / an aliased subquery / an aliased set operation as the field's source
          "NONE": (None, None, None, "N"), "SQ": ("<sq>", None, None, "Q"), "SQ_a": ("<sq>", "a", None, "Q"), "SO_b": ("<so>", "b", None, "S")}
 
@@ -353,7 +370,11 @@ def ident(t):
         return ("<sq>", t.alias, None, "Q")
     if type(t).__name__ == "_SetOperation":
         return ("<so>", t.alias, None, "S")
-    sch = t._schema._name if getattr(t, "_schema", None) is not None else None
+    sch, node = [], getattr(t, "_schema", None)
+    while node is not None:
+        sch.insert(0, node._name)
+        node = getattr(node, "_parent", None)
+    sch = None if not sch else (sch[0] if len(sch) == 1 else tuple(sch))
     return (t._table_name, t.alias, sch, "T")
 
 
@@ -423,7 +444,7 @@ def run_exprs(case, res):
         if n == 0 or zname in ("QueryBuilder", "_SetOperation", "ContainsCriterion.sub", "Star"):
             continue  # subqueries have their own fields by design; Star is a Field named '*'
         tabs = [Table("z%d" % i) for i in range(n)]
-        for same_col, inner in ((True, None), (False, None), (False, "arith"), (False, "neg"), (False, "func")):
+        for same_col, inner in ((True, None), (False, None), (False, "arith"), (False, "neg"), (False, "func"), (True, "func"), (True, "arith")):
             fields = [Field("x" if same_col else "c%d" % i, table=tabs[i]) for i in range(n)]
             if inner:
                 # every slot holds an expression over its column instead of the bare column (kinds whose constructor needs a
